@@ -300,14 +300,15 @@ def flat_out(out):
 
 
 def track(tracked, op):
-  """Output keys produced since the last apply, as the library counts them."""
+  """Output keys produced since the last apply (a sink adds none, SKIP is none)."""
   kind = op['op']
-  if kind == 'apply':
-    return frozenset(flat_out(op['out']))
-  if kind in ('select', 'assign'):
-    return tracked | flat_out(op['out'])
+  if kind in ('apply', 'select'):
+    # Both replace the record by their outputs.
+    return frozenset(flat_out(op['out']) - {HSKIP})
+  if kind == 'assign':
+    return tracked | (flat_out(op['out']) - {HSKIP})
   if kind == 'sink':
-    return tracked | {HSELF}
+    return tracked
   if kind == 'batch':
     return frozenset(tracked or {HSELF})
   return tracked
@@ -352,11 +353,6 @@ def op_triggers(op, tracked):
         break
       if not (isinstance(k, dict) and 'lit' in k):
         break
-  if kind == 'batch':
-    if HSKIP in tracked:
-      trig.append('batch-after-skip-output-key')
-    elif HSELF in tracked and len(tracked) > 1:
-      trig.append('batch-after-sink-mixes-self-with-keys')
   if kind == 'sink' and op['in']['form'] == 'kw':
     trig.append('sink-keyword-input-keys')
   if kind in ('assign', 'select') and not op.get('out_default') and \
